@@ -61,12 +61,26 @@ def register_scalar(m, canon):
     for c in seen:
         if c.eq(canon):
             return
-    m.p.assume(z3.And(Xc(canon) >= 0, Xc(canon) < P, Yc(canon) >= 1, Yc(canon) < P))
-    for c in seen:
-        m.p.assume(z3.Implies(z3.And(Xc(c) == Xc(canon), c % N != 0, canon % N != 0),
-                              z3.Or((c - canon) % N == 0, (c + canon) % N == 0)))
-        m.p.assume(z3.Implies(z3.And(Xc(c) == Xc(canon), Yc(c) == Yc(canon), c % N != 0, canon % N != 0),
-                              (c - canon) % N == 0))
+    # 0 < x < P (x = 0 would need y^2 = 7, and 7 is a quadratic non-residue mod P: checked in setup),
+    # 0 < y < P (no point of order 2: -7 is not a cube mod P)
+    m.p.assume(z3.And(Xc(canon) >= 1, Xc(canon) < P, Yc(canon) >= 1, Yc(canon) < P))
+    if getattr(m, "nl_uf", False):
+        # the point is on the curve: y^2 = x^3 + 7 (mod P), written with the canonical products
+        # the engine builds for FieldElement arithmetic; hence x^3 + 7 is a square
+        from .ops import nl_mul
+        x3 = nl_mul(nl_mul(Xc(canon), Xc(canon)), Xc(canon))
+        y2 = nl_mul(Yc(canon), Yc(canon))
+        rhs = z3.simplify((z3.simplify(x3 % P) + 7) % P)
+        m.p.assume(z3.simplify(y2 % P) == rhs)
+        m.p.assume(QR(rhs))
+    if getattr(m, "curve_injectivity", False):
+        # x(a) = x(b) => a = +-b, instantiated pairwise (only for contracts that ask for it:
+        # every instance adds two residue constraints over 256-bit terms)
+        for c in seen:
+            m.p.assume(z3.Implies(z3.And(Xc(c) == Xc(canon), c % N != 0, canon % N != 0),
+                                  z3.Or((c - canon) % N == 0, (c + canon) % N == 0)))
+            m.p.assume(z3.Implies(z3.And(Xc(c) == Xc(canon), Yc(c) == Yc(canon), c % N != 0, canon % N != 0),
+                                  (c - canon) % N == 0))
     seen.append(canon)
     if not any(c.eq(I(1)) for c in seen):
         seen.append(I(1))
@@ -81,6 +95,8 @@ def mk_point(m, scalar_term):
     poly, canon, sigma = nz.canonical(z3.simplify(scalar_term))
     a_f, b_f = _field(m, 0), _field(m, 7)
     if poly.is_zero() or m.p.branch(canon % N == 0):
+        if not poly.is_zero():
+            nz.add_zero(poly)       # later scalars on this path are reduced modulo this fact
         return m.p.alloc(HObj(pecc.S256Point, {"x": None, "y": None, "a": a_f, "b": b_f, "_dl": I(0)}))
     register_scalar(m, canon)
     xt = Xc(canon)
@@ -186,6 +202,12 @@ def s_lift_x(m, args, kwargs):
     x = m.it(args[0])
     if not m.p.branch(z3.And(x >= 0, x < P)):
         return None
+    # a point with this x-coordinate already on the path: lift_x is that point or its negation
+    for c0 in m.p.__dict__.get("_curve_scalars", []):
+        if z3.simplify(Xc(c0)).eq(z3.simplify(x)) or (not z3.is_int_value(x) and m.p.implied(Xc(c0) == x) and m.p.implied(c0 % N != 0)):
+            if m.p.branch(Yc(c0) % 2 == 0):
+                return mk_point(m, c0)
+            return mk_point(m, -c0)
     c = (x * x * x + 7) % P
     if not m.p.branch(QR(c)):
         return None
@@ -204,8 +226,10 @@ def fermat_hook(m, tb, e, mod, t):
     if mod == P and e == (P + 1) // 4:
         # Euler's criterion for p = 3 (mod 4): r = a^((p+1)/4) satisfies r^2 = a iff a is a square
         # (Lean lemma sqrt_of_three_mod_four in verif/lean/Lemmas.lean)
-        a = tb % P
-        m.p.assume(QR(a) == ((t * t) % P == a))
+        a = z3.simplify(tb % P)
+        from .ops import nl_mul
+        sq = nl_mul(t, t) if getattr(m, "nl_uf", False) else t * t
+        m.p.assume(QR(a) == (z3.simplify(sq % P) == a))
 
 
 XORB = z3.Function("xor_bytes", BSort, BSort, BSort)
